@@ -218,6 +218,13 @@ let () =
                | [l; f] -> (int_of_string l, f = "1") | _ -> failwith "bad CHUNK item") rest in
            chunks := (int_of_string l0, fut) :: !chunks
          | _ -> failwith "bad CHUNK line"
+       end else if String.length line >= 6 && String.sub line 0 6 = "BOUND " then begin
+         (* BOUND <OB> <n> <level>: value of the proved heap bound B *)
+         (match String.split_on_char ' ' line with
+          | [_; ob; n; l] ->
+            Printf.printf "BOUND %s %s %s %d\n" ob n l
+              (int_of_n (b (n_of_int (int_of_string ob)) (nat_of_int (int_of_string n)) (n_of_int (int_of_string l))))
+          | _ -> failwith "bad BOUND line")
        end else if line = "END" then begin
          (match !cur with
           | Some (id, n, u, l) ->
